@@ -190,6 +190,31 @@ func C17(c *Ctx) {
 						g = g && alt.Guarded(isEntElem, 1)
 					}
 				}
+				if !g && okV {
+					// two passes: the entries to rewrite were picked out first (position and element collected under the
+					// denomination test), then rewritten: the test stands where each entry was collected
+					idx := w.ExprOf(ia.Index).String()
+					nApp, allG := 0, true
+					for _, b2 := range f.Blocks {
+						for _, in2 := range b2.Instrs {
+							call, ok := in2.(*ssa.Call)
+							if !ok {
+								continue
+							}
+							if bi, ok := call.Common().Value.(*ssa.Builtin); !ok || bi.Name() != "append" || len(call.Common().Args) != 2 {
+								continue
+							}
+							if !w.ExprOf(call.Common().Args[1]).Any(func(z *ir.Expr) bool { return z.String() == idx }) {
+								continue
+							}
+							nApp++
+							if !w.Guarded(f, in2, isEntElem, 1) {
+								allG = false
+							}
+						}
+					}
+					g = nApp > 0 && allG
+				}
 				r.Require(okV, "A2.paginated-supply", key+"|rewrite-value", pos(c, in), "element i is replaced by element i minus the stored TotalLocked", "stores "+shown)
 				r.Require(g, "A2.paginated-supply", key+"|rewrite-guard", pos(c, in), "only the enterprise denomination's entry is reduced", "rewrite reachable for other denominations")
 			}
@@ -200,6 +225,10 @@ func C17(c *Ctx) {
 			for _, in := range b.Instrs {
 				if call, ok := in.(*ssa.Call); ok {
 					if bi, ok := call.Common().Value.(*ssa.Builtin); ok && bi.Name() == "append" {
+						// (an append to a list of another type — positions picked out for a second pass — does not extend the listing)
+						if page.Type() != nil && call.Type().String() != "github.com/cosmos/cosmos-sdk/types.Coins" && call.Type().String() != "[]github.com/cosmos/cosmos-sdk/types.Coin" {
+							continue
+						}
 						r.Bad("A2.paginated-supply", key+"|append", pos(c, in), "the listing is never extended", "append in "+fn(f))
 					}
 				}
